@@ -374,15 +374,10 @@ def _constraint_pairs():
   ]
 
 
-def case_synonyms(**p):
-  import tensorflow as tf
+def _layer_pairs():
   import tensorflow_lattice as tfl
   L = tfl.layers
-  case = Case(PROP, p['name'], {})
-  from tensorflow_lattice.python import utils
-  case.encoded(utils.canonicalize_monotonicities, utils.canonicalize_unimodalities, utils.canonicalize_trust, utils.canonicalize_convexity,
-               utils.canonicalize_monotonicity)
-  pairs = [
+  return [
       ('lattice increasing vs 1', lambda: L.Lattice(lattice_sizes=[2, 3], monotonicities=['increasing', 'none'], output_min=0.0, output_max=1.0, kernel_initializer='zeros'),
        lambda: L.Lattice(lattice_sizes=[2, 3], monotonicities=[1, 0], output_min=0.0, output_max=1.0, kernel_initializer='zeros'), [None, 2], (6, 1)),
       ('lattice peak/valley vs -1/1', lambda: L.Lattice(lattice_sizes=[3, 3], unimodalities=['peak', 'valley'], kernel_initializer='zeros'),
@@ -399,7 +394,67 @@ def case_synonyms(**p):
        lambda: L.Linear(num_input_dims=3, monotonicities=[1, -1, 0], input_min=[None, 0.0, None], input_max=[1.0, None, None]), [None, 3], (3, 1)),
       ('kfl increasing vs 1', lambda: L.KroneckerFactoredLattice(lattice_sizes=2, monotonicities=['increasing', 'none'], output_min=0.0),
        lambda: L.KroneckerFactoredLattice(lattice_sizes=2, monotonicities=[1, 0], output_min=0.0), [None, 2], None),
+      # pairs / triples spelled as lists (what a JSON round trip of a config produces) vs tuples
+      ('categorical pairs as lists vs tuples', lambda: L.CategoricalCalibration(num_buckets=4, units=2, monotonicities=[[0, 1], [1, 3]], output_min=0.0, output_max=1.0, kernel_initializer='constant'),
+       lambda: L.CategoricalCalibration(num_buckets=4, units=2, monotonicities=[(0, 1), (1, 3)], output_min=0.0, output_max=1.0, kernel_initializer='constant'), [None, 2], (4, 2)),
+      ('lattice trusts and dominances as lists vs tuples', lambda: L.Lattice(lattice_sizes=[2, 2, 2], monotonicities=[1, 1, 0], edgeworth_trusts=[[0, 2, 1]], trapezoid_trusts=[[1, 2, -1]], monotonic_dominances=[[0, 1]], kernel_initializer='zeros'),
+       lambda: L.Lattice(lattice_sizes=[2, 2, 2], monotonicities=[1, 1, 0], edgeworth_trusts=[(0, 2, 1)], trapezoid_trusts=[(1, 2, -1)], monotonic_dominances=[(0, 1)], kernel_initializer='zeros'), [None, 3], (8, 1)),
+      ('linear dominances as lists vs tuples', lambda: L.Linear(num_input_dims=4, monotonicities=[1, 1, 1, 1], monotonic_dominances=[[0, 1]], range_dominances=[[2, 3]], input_min=[0.0, 0.0, 0.0, 0.0], input_max=[1.0, 2.0, 1.0, 3.0]),
+       lambda: L.Linear(num_input_dims=4, monotonicities=[1, 1, 1, 1], monotonic_dominances=[(0, 1)], range_dominances=[(2, 3)], input_min=[0.0, 0.0, 0.0, 0.0], input_max=[1.0, 2.0, 1.0, 3.0]), [None, 4], (4, 1)),
   ]
+
+
+def _synonym_pair(case, label, mk_a, mk_b, shape):
+  import tensorflow as tf
+  la, lb = mk_a(), mk_b()
+  la.build(tf.TensorShape(shape))
+  lb.build(tf.TensorShape(shape))
+  xshape = [1] + shape[1:]
+  is_cat = type(la).__name__ == 'CategoricalCalibration'
+  dt = tf.int32 if is_cat else tf.float32
+  ta = Traced(lambda x: la(x), [tf.TensorSpec(xshape, dt)], name='a')
+  tb = Traced(lambda x: lb(x), [tf.TensorSpec(xshape, dt)], name='b')
+  sym.new_ctx()
+  # category indices are enumerated elsewhere (C05); here one concrete index vector suffices, the kernel is symbolic
+  x = sym.obj(np.arange(int(np.prod(xshape))).reshape(xshape) % 3) if is_cat else sym.symbolic('x', tuple(xshape))
+  vva, vvb, wit = {}, {}, dict(x=x)
+  for i, (va, vb) in enumerate(zip(la.weights, lb.weights)):
+    a = sym.symbolic('v%d' % i, tuple(va.shape))
+    vva[va.ref()] = a
+    vvb[vb.ref()] = a
+    wit['v%d' % i] = a
+  (oa,) = ta.sym_run(x, var_values=vva)
+  (ob,) = tb.sym_run(x, var_values=vvb)
+  pairs_ = list(zip(np.asarray(oa, dtype=object).reshape(-1), np.asarray(ob, dtype=object).reshape(-1)))
+  # the weight constraints must agree as well
+  ka, kb = la.kernel.constraint, lb.kernel.constraint
+  if (ka is None) != (kb is None):
+    case.record('synonyms-attach-same-constraint[%s]' % label, 'sat', kind='structural', witness={}, replay=None, sig=dict(query='synonym'))
+  elif ka is not None:
+    kshp = list(la.kernel.shape)
+    tka = Traced(lambda w: ka(w), [tf.TensorSpec(kshp, tf.float32)])
+    tkb = Traced(lambda w: kb(w), [tf.TensorSpec(kshp, tf.float32)])
+    W = sym.symbolic('w', tuple(kshp))
+    extra_a = {la.scale.ref(): vva[la.scale.ref()]} if hasattr(la, 'scale') else {}
+    extra_b = {lb.scale.ref(): vvb[lb.scale.ref()]} if hasattr(lb, 'scale') else {}
+    (ca,) = tka.sym_run(W, var_values=extra_a)
+    (cb,) = tkb.sym_run(W, var_values=extra_b)
+    pairs_ += list(zip(np.asarray(ca, dtype=object).reshape(-1), np.asarray(cb, dtype=object).reshape(-1)))
+    wit['w'] = W
+  flat = lambda outs: np.asarray(outs[0]).reshape(-1)
+  case.identity('synonymous-spellings-configure-identical-behaviour[%s]' % label, pairs_, witness=wit, timeout=60, sig=dict(query='synonym'),
+                inline_replay=lambda m, ta=ta, tb=tb, x=x, vva=vva, vvb=vvb: core.compare_tf(m, [(ta, [x], vva, flat), (tb, [x], vvb, flat)]))
+
+
+def case_synonyms(**p):
+  import tensorflow as tf
+  import tensorflow_lattice as tfl
+  L = tfl.layers
+  case = Case(PROP, p['name'], {})
+  from tensorflow_lattice.python import utils
+  case.encoded(utils.canonicalize_monotonicities, utils.canonicalize_unimodalities, utils.canonicalize_trust, utils.canonicalize_convexity,
+               utils.canonicalize_monotonicity)
+  pairs = _layer_pairs()
   # the constraint classes constructed directly (users attach them to their own variables)
   from tensorflow_lattice.python import lattice_layer as LLm, linear_layer as LINm
   cpairs = _constraint_pairs()
@@ -423,41 +478,12 @@ def case_synonyms(**p):
                   sig=dict(query='synonym'),
                   inline_replay=lambda m, tca=tca, tcb=tcb, W=W: core.compare_tf(m, [(tca, [W], {}, flat0), (tcb, [W], {}, flat0)]))
   for label, mk_a, mk_b, shape, kshape in pairs:
-    la, lb = mk_a(), mk_b()
-    la.build(tf.TensorShape(shape))
-    lb.build(tf.TensorShape(shape))
-    xshape = [1] + shape[1:]
-    ta = Traced(lambda x: la(x), [tf.TensorSpec(xshape, tf.float32)], name='a')
-    tb = Traced(lambda x: lb(x), [tf.TensorSpec(xshape, tf.float32)], name='b')
-    sym.new_ctx()
-    x = sym.symbolic('x', tuple(xshape))
-    vva, vvb, wit = {}, {}, dict(x=x)
-    for i, (va, vb) in enumerate(zip(la.weights, lb.weights)):
-      a = sym.symbolic('v%d' % i, tuple(va.shape))
-      vva[va.ref()] = a
-      vvb[vb.ref()] = a
-      wit['v%d' % i] = a
-    (oa,) = ta.sym_run(x, var_values=vva)
-    (ob,) = tb.sym_run(x, var_values=vvb)
-    pairs_ = list(zip(np.asarray(oa, dtype=object).reshape(-1), np.asarray(ob, dtype=object).reshape(-1)))
-    # the weight constraints must agree as well
-    ka, kb = la.kernel.constraint, lb.kernel.constraint
-    if (ka is None) != (kb is None):
-      case.record('synonyms-attach-same-constraint[%s]' % label, 'sat', kind='structural', witness={}, replay=None, sig=dict(query='synonym'))
-    elif ka is not None:
-      kshp = list(la.kernel.shape)
-      tka = Traced(lambda w: ka(w), [tf.TensorSpec(kshp, tf.float32)])
-      tkb = Traced(lambda w: kb(w), [tf.TensorSpec(kshp, tf.float32)])
-      W = sym.symbolic('w', tuple(kshp))
-      extra_a = {la.scale.ref(): vva[la.scale.ref()]} if hasattr(la, 'scale') else {}
-      extra_b = {lb.scale.ref(): vvb[lb.scale.ref()]} if hasattr(lb, 'scale') else {}
-      (ca,) = tka.sym_run(W, var_values=extra_a)
-      (cb,) = tkb.sym_run(W, var_values=extra_b)
-      pairs_ += list(zip(np.asarray(ca, dtype=object).reshape(-1), np.asarray(cb, dtype=object).reshape(-1)))
-      wit['w'] = W
-    flat = lambda outs: np.asarray(outs[0]).reshape(-1)
-    case.identity('synonymous-spellings-configure-identical-behaviour[%s]' % label, pairs_, witness=wit, timeout=60, sig=dict(query='synonym'),
-                  inline_replay=lambda m, ta=ta, tb=tb, x=x, vva=vva, vvb=vvb: core.compare_tf(m, [(ta, [x], vva, flat), (tb, [x], vvb, flat)]))
+    try:
+      _synonym_pair(case, label, mk_a, mk_b, shape)
+    except Exception as e:  # pylint: disable=broad-except
+      case.record('synonymous-spellings-configure-identical-behaviour[%s]' % label, 'sat', kind='structural', witness={},
+                  replay=dict(fn='syn-layer', label=label), sig=dict(query='synonym', label=label),
+                  note='one spelling fails to build / project / evaluate: %s: %s' % (type(e).__name__, str(e)[:120]))
   return case
 
 
@@ -536,6 +562,20 @@ def case_canon(**p):
 
 def replay(r):
   rp = r['replay']
+  if rp['fn'] == 'syn-layer':
+    import tensorflow as tf
+    for label, mk_a, mk_b, shape, kshape in _layer_pairs():
+      if label == rp['label']:
+        try:
+          for mk in (mk_a, mk_b):
+            layer = mk()
+            layer.build(tf.TensorShape(shape))
+            if layer.kernel.constraint is not None:
+              layer.kernel.constraint(layer.kernel)
+            layer(tf.zeros([1] + shape[1:]))
+        except Exception as e:  # pylint: disable=broad-except
+          return dict(reproduced=True, detail='%s: %s' % (type(e).__name__, str(e)[:200]))
+        return dict(reproduced=False, detail='both spellings build, project and evaluate')
   if rp['fn'] == 'syn-constraint':
     for label, mk_a, mk_b, wshape in _constraint_pairs():
       if label == rp['label']:
